@@ -605,6 +605,7 @@ def r15(db, ctx):
         op = f.name
         elem = 'u8' if 'Score<u8' in f.path or 'Maximum<u8' in f.path else 'f32'
         arms = 0
+        per_arm = {}
         for bi, t in f.calls():
             c = f.callee_short(t) or ''
             if not (c.startswith('lightmotif::pli::platform::') or c.startswith('lightmotif::pli::')) or c.endswith('as_ref'):
@@ -615,6 +616,7 @@ def r15(db, ctx):
                 continue
             arms += 1
             cons = sw[0][2]
+            per_arm.setdefault(repr(cons), []).append((c, t))
             callee_owner = c.split('::')[-2] if c.startswith('lightmotif::pli::platform::') else 'trait:' + c.rsplit('::', 2)[-2]
             meth = c.rsplit('::', 1)[-1]
             full_ = t.get('callee_full') or t.get('resolved_full') or ''
@@ -635,6 +637,13 @@ def r15(db, ctx):
                     continue
             n += 1
             ctx.ok('R1.5', f, f'{op}<{elem}>: arm {cons} -> {c.rsplit("::", 2)[-2]}::{meth}')
+        # one arm, one implementation: an arm that hands part of the input to one backend and the rest to another (head to AVX2, tail to the
+        # generic code) changes what is observed when both parts matter — which invalid byte an encoder reports first (seed C05-11)
+        for ck, cl in per_arm.items():
+            owners = {c_.split('::')[-2] if c_.startswith('lightmotif::pli::platform::') else 'generic' for c_, _ in cl}
+            if len(owners) > 1:
+                ctx.fail('R1.5', f, f'{op}: arm {ck} split', f'the arm calls implementations of several backends ({sorted(owners)}): the operation is split between them, '
+                         'so results that depend on the whole input (the first offending symbol, the order of stores) are no longer those of one backend', span=cl[0][1]['span'])
         # completeness: the accelerated arms confirmed by reading dispatch.rs — a backend the dispatcher can select must not fall through to the
         # generic arm for an operation it implements (seed C08-9: a narrowed cfg compiled the AVX2 arm of the 8-bit scoring out on x86-64,
         # leaving the non-saturating generic kernel — the recorded finding D7 — as what the scanner runs)
